@@ -1,6 +1,7 @@
 """C03 - every constructible message serialises well-formed and parses back intact.
 Spec: spec/Message.tla on top of spec/Wire.tla; cases from spec/MC_Message.tla."""
 import random
+import struct
 from concurrent.futures import ThreadPoolExecutor
 
 from . import fakes  # noqa: F401  (installs the quiet log observer, repo path)
@@ -11,7 +12,7 @@ from txdbus import message, error
 
 OBS = ['c', 'raw', 'rec', 'ser']
 ATTR = {1: ('path', 'o'), 2: ('interface', 's'), 3: ('member', 's'), 4: ('error_name', 's'),
-        5: ('reply_serial', 'u'), 6: ('destination', 's'), 7: ('sender', 's')}
+        5: ('reply_serial', 'u'), 6: ('destination', 's'), 7: ('sender', 's'), 9: ('unix_fds', 'u')}
 NAME2CODE = {v[0]: k for k, v in ATTR.items()}
 
 
@@ -65,8 +66,8 @@ def known(fields):
 def constructible(m):
     """can the abstract message be built through the public constructors?"""
     codes = [f[0] for f in m['fields']]
-    if any(c > 9 for c in codes) or len(set(codes)) != len(codes):
-        return False
+    if any(c > 8 for c in codes) or len(set(codes)) != len(codes):
+        return False      # (descriptor counts are set by the library, from the descriptors it finds in the body)
     t = m['type']
     if t != 1 and (m['nr'] or m['na']):
         return False
@@ -162,6 +163,9 @@ def rand_msg(rng):
     sender = rng.random() < 0.4
     if sender:
         fields.append((7, ('s',), P(':1.%d' % rng.randint(1, 99))))
+    if rng.random() < 0.3:
+        # a peer's message declaring descriptors (none of which the body refers to): one more header field, anywhere
+        fields.append((9, ('u',), tuple(rng.choice([1, 2, 3]).to_bytes(4, 'little'))))
     nb = rng.choice([0, 1, 1, 2, 3])
     bodyT = tuple(wc.rand_type(rng, 2) for _ in range(nb))
     body = tuple(wc.rand_value(rng, x) for x in bodyT)
@@ -347,6 +351,26 @@ def run(tier, seed):
     chk.transitions += stt['transitions']
     for ti, _, _ in rej[:3]:
         chk.violation('size limit: %r' % (lim_tr[ti],), dict(kind='code->spec', module='c03', case=lim_tr[ti]))
+    # the far end of the serial counter (2^32 is beyond TLC's integers, so this boundary is judged here): whatever is
+    # constructed there carries a fresh serial that is not zero - or is not constructed at all
+    saved = message.DBusMessage._nextSerial
+    try:
+        message.DBusMessage._nextSerial = 2 ** 32 - 2
+        seen_serials = []
+        for j in range(5):
+            try:
+                mo = message.SignalMessage('/p', 'M', 'org.ex.I')
+                ser_wire = struct.unpack_from('<I', mo.rawMessage, 8)[0]
+            except Exception:
+                continue          # refusing to build a message there produces nothing ill-formed
+            if ser_wire == 0 or mo.serial != ser_wire or ser_wire in seen_serials:
+                chk.violation('serial counter at 2^32: message %d constructed with serial %r (earlier: %r)' % (j, ser_wire, seen_serials),
+                              dict(kind='case', module='c03', serial=ser_wire, earlier=seen_serials))
+                break
+            seen_serials.append(ser_wire)
+        chk.notes['serial_boundary'] = seen_serials
+    finally:
+        message.DBusMessage._nextSerial = saved
     # names: a string that is legal in one role (and was just used in it) is still refused in the roles whose
     # grammar excludes it - verdicts judged by Validators.tla, as in C18 but after the string has a history
     from . import c18
